@@ -72,6 +72,7 @@ SeenOf(e) == {e.a}
   \cup (IF e.a = "Detect" /\ Cardinality(Allowed(C(e.obj), registry, EntryPoints)) > 1 THEN {"builtin-tie"} ELSE {})
   \cup (IF e.a = "Detect" /\ e.obs.cls \in Extra THEN {"manual-wins"} ELSE {})
   \cup (IF e.a = "Detect" /\ e.obs.cls = "None" THEN {"nothing-matches"} ELSE {})
+  \cup (IF e.a = "Construct" /\ e.cls = "ArakawaC" THEN {"hand-made-arakawa"} ELSE {})
   \cup (IF e.a = "Strip" /\ cached[e.obj] # 0 /\ Best(AllContents[Stripped(content[e.obj], e.bit)], registry, EntryPoints) # Best(C(e.obj), registry, EntryPoints)
         THEN {"derived-from-bound-detects-differently"} ELSE {})
   \* a built-in class registered by hand decides a tie between built-ins
